@@ -984,6 +984,15 @@ var rMemo = &Rule{
 							walk(*op, d+1)
 						}
 					}
+					// a merge of values chosen by tests: the tests are part of what the value is computed from
+					if ph, ok := v.(*ssa.Phi); ok {
+						for i := range ph.Edges {
+							pred := ph.Block().Preds[i]
+							for _, l := range append(edgeLits(pred, ph.Block()), dominatingLits(pred)...) {
+								walk(l.V, d+1)
+							}
+						}
+					}
 					if ldv, ok := v.(*ssa.UnOp); ok && ldv.Op == token.MUL {
 						if al, ok := ldv.X.(*ssa.Alloc); ok {
 							for _, r := range *al.Referrers() {
